@@ -41,6 +41,10 @@ def _prop_desc(fn, aliases):
     if len(fn.body) == 0:
         return ("?",)
     body = [st for st in fn.body if not (isinstance(st, ast.Expr) and isinstance(st.value, ast.Constant))]
+    # 'x = <expr>; return x'  is  'return <expr>'
+    if len(body) == 2 and isinstance(body[0], ast.Assign) and len(body[0].targets) == 1 and isinstance(body[0].targets[0], ast.Name) \
+            and isinstance(body[1], ast.Return) and isinstance(body[1].value, ast.Name) and body[1].value.id == body[0].targets[0].id:
+        body = [ast.copy_location(ast.Return(value=body[0].value), body[1])]
     if len(body) != 1 or not isinstance(body[0], ast.Return) or body[0].value is None:
         return ("?", norm(fn)[:60])
     v = body[0].value
@@ -287,6 +291,10 @@ def run(repo: Repo, chk: Check):
             elif sd[0] == "slot":
                 pd = dp[0] if dp else None
                 ok = pd is not None and pd[0] == "slot" and pd[2] == sd[2] and nm == f"slot{sd[2]}"
+                if not ok and pd is not None and pd[0] == "slot" and pd[2] == sd[2] and not nm.startswith("slot"):
+                    # a named slot that builds the accessor itself instead of returning self.slotK: the same object as the numbered property
+                    numS, numP = eS.get(f"slot{sd[2]}"), eP.get(f"slot{sd[2]}")
+                    ok = numS is not None and numP is not None and numS[0] == sd and numP[0] == pd
                 if ok:
                     slot_pairs.setdefault(sd[1], set()).add(pd[1])
                 chk.judge("R16.b", k2, ok, f"slot property {nm}: singular {sd}, plural {pd}; expected <SlotClass>(self, {nm[4:]}) on both sides", None, where)
